@@ -170,20 +170,24 @@ fn verify_status(path: &Path) -> (bool, String) {
     }
 }
 
-fn open_table(path: &Path, tags: &HashMap<[u8; 32], u64>) -> Result<(Vec<Row>, u64), String> {
+fn open_table(path: &Path, tags: &HashMap<[u8; 32], u64>) -> Result<(Vec<Row>, u64), String> { open_table_emb(path, tags).map(|(t, nv, _)| (t, nv)) }
+
+/// frame table, vector count, and per frame whether the vector index holds an embedding for it
+fn open_table_emb(path: &Path, tags: &HashMap<[u8; 32], u64>) -> Result<(Vec<Row>, u64, Vec<bool>), String> {
     let p = path.to_path_buf();
-    match std::panic::catch_unwind(std::panic::AssertUnwindSafe(move || -> Result<(Vec<Row>, u64), String> {
+    match std::panic::catch_unwind(std::panic::AssertUnwindSafe(move || -> Result<(Vec<Row>, u64, Vec<bool>), String> {
         let mut m = Memvid::open(&p).map_err(|e| format!("{}", e))?;
         let t = table_of(&mut m, tags);
         let nv = m.stats().map(|s| s.vector_count).unwrap_or(u64::MAX >> 8);
-        Ok((t, nv))
+        let emb: Vec<bool> = (0..t.len() as u64).map(|id| matches!(m.frame_embedding(id), Ok(Some(_)))).collect();
+        Ok((t, nv, emb))
     })) { Ok(r) => r, Err(_) => Err("panic".into()) }
 }
 
 #[derive(Clone, Debug)]
-enum Pop { Ins(u64), Upd(u64, u64), Del(u64) }
+enum Pop { Ins(u64, bool), Upd(u64, u64), Del(u64) }
 
-struct Base { bytes: Vec<u8>, l: Layout, rows: Vec<Row>, pops: Vec<Pop>, tags: HashMap<[u8; 32], u64>, ref_table: Vec<Row>, ref_nvec: u64, dir: tempfile::TempDir, desc: String, old_footers: usize }
+struct Base { pemb: u64, bytes: Vec<u8>, l: Layout, rows: Vec<Row>, pops: Vec<Pop>, tags: HashMap<[u8; 32], u64>, ref_table: Vec<Row>, ref_nvec: u64, dir: tempfile::TempDir, desc: String, old_footers: usize }
 
 fn build_base(r: &mut Rng, pending: bool) -> Option<Base> {
     let mut d = Driver::new();
@@ -221,9 +225,10 @@ fn build_base(r: &mut Rng, pending: bool) -> Option<Base> {
             ts += 3; uri += 1;
             let kind = if r.chance(1, 3) { PayloadKind::Bin } else { PayloadKind::Text };
             let embed = if with_vec && r.chance(1, 2) { Some(emb_of(r.below(300))) } else { None };
+            let embedded = embed.is_some();
             let o = d.step(&Op::Put { kind, size: r.range(20, 500) as usize, uri: Some(uri), ts, embed, default_opts: false });
             if !o.ok || o.auto_committed { return None; }
-            pops.push(Pop::Ins(d.last_tag));
+            pops.push(Pop::Ins(d.last_tag, embedded));
         }
         let act: Vec<u64> = rows.iter().filter(|x| x.status == 0).map(|x| x.id).collect();
         if act.len() >= 2 && r.chance(2, 3) {
@@ -250,10 +255,12 @@ fn build_base(r: &mut Rng, pending: bool) -> Option<Base> {
     let dir = tempfile::tempdir().ok()?;
     let refp = dir.path().join("ref.mv2");
     std::fs::write(&refp, &bytes).ok()?;
-    let (ref_table, ref_nvec) = open_table(&refp, &tags).ok()?;
+    let (ref_table, ref_nvec, ref_emb) = open_table_emb(&refp, &tags).ok()?;
+    // embeddings carried by the pending records (an update inherits the embedding of the frame it supersedes)
+    let pemb = ref_emb.iter().skip(committed_n as usize).filter(|x| **x).count() as u64;
     let old_footers = count_valid_footers(&bytes).saturating_sub(1);
     let desc = format!("{} committed frames, pending {:?}, {} vectors, file {} bytes, toc at {}, footer at {}", committed_n, pops, ref_nvec, l.len, l.toc_off, l.footer_off);
-    Some(Base { bytes, l, rows, pops, tags, ref_table, ref_nvec, dir, desc, old_footers })
+    Some(Base { pemb, bytes, l, rows, pops, tags, ref_table, ref_nvec, dir, desc, old_footers })
 }
 
 fn b(x: bool) -> T { T::B(x) }
@@ -284,13 +291,18 @@ fn abstract_input(base: &Base, dmgs: &[Damage], bits: u8, same: bool) -> T {
             Damage::WalGarbage => walk = 2,
         }
     }
-    let pops: Vec<T> = base.pops.iter().map(|p| match p { Pop::Ins(t) => T::Tup(vec![T::N(0), T::N(*t as u128), T::N(0)]), Pop::Upd(a, t) => T::Tup(vec![T::N(1), T::N(*a as u128), T::N(*t as u128)]), Pop::Del(a) => T::Tup(vec![T::N(2), T::N(*a as u128), T::N(0)]) }).collect();
+    let pops: Vec<T> = base.pops.iter().map(|p| match p { Pop::Ins(t, _) => T::Tup(vec![T::N(0), T::N(*t as u128), T::N(0)]), Pop::Upd(a, t) => T::Tup(vec![T::N(1), T::N(*a as u128), T::N(*t as u128)]), Pop::Del(a) => T::Tup(vec![T::N(2), T::N(*a as u128), T::N(0)]) }).collect();
     T::Tup(vec![
         T::Tup(vec![T::N(ptr as u128), T::N(toc as u128), T::N(foot as u128), T::N(h as u128), T::N(s as u128), T::N(c as u128)]),
         T::Tup(vec![b(footer), b(tocbytes), b(true)]),
         T::Tup(vec![T::N(walk), T::L(pops)]),
-        // vectors the index holds once the READABLE pending records are applied (an unreadable log contributes none)
-        T::Tup(vec![T::N(time), b(lex), T::N(vec), T::N(if walk == 2 { l.toc.indexes.vec.as_ref().map_or(0, |m| m.vector_count) } else { base.ref_nvec } as u128)]),
+        // embeddings of active frames the index holds once the READABLE pending records are applied: an unreadable
+        // log contributes none, an index whose bytes are damaged contributes none (only the pending embeddings remain)
+        T::Tup(vec![T::N(time), b(lex), T::N(vec), T::N({
+            let committed = if vec == 2 { 0 } else { l.toc.indexes.vec.as_ref().map_or(0, |m| m.vector_count) };
+            let pemb = base.pemb;
+            if walk == 2 { committed } else if vec == 2 { pemb } else { base.ref_nvec }
+        } as u128)]),
         rows_term(&base.rows),
         T::Tup(vec![b(bits & 1 != 0), b(bits & 2 != 0), b(bits & 4 != 0), b(bits & 8 != 0), b(bits & 16 != 0)]),
         b(same),
@@ -369,7 +381,8 @@ fn one_case(base: &Base, dmgs: &[Damage], bits: u8, same: bool, w: &mut dyn std:
     if stale { tags.push("ptr-damage+pending-insert(F-C21-1 fixed)".into()); }
     // the repaired HealHeaderPointer still writes when the planned target lies AHEAD of the handle's pointer
     if r1.heal_ptr_executed || r2.heal_ptr_executed { tags.push("heal-header-pointer-EXECUTED".into()); }
-    if let Ok((_, nv)) = &opened { if *nv < base.ref_nvec { tags.push("vectors-lost(F-C14-1)".into()); } }
+    // since fix 83a83e8 a vector rebuild keeps the embeddings; only a damaged index (the only copy) loses them
+    if let Ok((_, nv)) = &opened { if *nv < base.ref_nvec { tags.push(if dmgs.contains(&Damage::VecZero) { "vectors-lost(damaged-index)".to_string() } else if dmgs.contains(&Damage::WalGarbage) { "vectors-lost(unreadable-log)".to_string() } else { "vectors-lost-UNEXPECTED".to_string() }); } }
     let input = abstract_input(base, dmgs, bits, same);
     let key = blake3::hash(format!("{}{:?}{}{}", blake3::hash(&base.bytes).to_hex(), dmgs, bits, same).as_bytes()).to_hex()[..16].to_string();
     let nontrivial = !(dmgs.iter().all(|d| *d == Damage::None) && base.pops.is_empty() && bits == 0);
